@@ -20,7 +20,7 @@ from mc import project as pj
 from mc import tlc_replay as tl
 from mc.core import site
 
-PRE = ("missing", "empty", "nodef", "stale", "agree")
+PRE = ("missing", "empty", "nodef", "stale", "agree", "reordered")
 GAMMA = {"Missing": "missing", "Empty": "empty", "NoDef": "nodef", "D1": "v1", "D2": "v2"}
 
 
@@ -43,6 +43,13 @@ def build_product(tier):
                                 continue
                             cases.append({"part": "product", "truth": truth, "kinds": kinds, "pre": list(pre), "method": method,
                                           "version": version, "via": via})
+    # a second file of the truth's own kind in the same invocation (the command line accepts several files per kind)
+    for truth in pj.KINDS:
+        other = [k for k in pj.KINDS if k != truth][0]
+        for pre in PRE:
+            for via in ("api", "cli"):
+                cases.append({"part": "product", "truth": truth, "kinds": [k for k in pj.KINDS if k in (truth, other)], "pre": ["agree"],
+                              "method": False, "version": "v1", "via": via, "extra_same_kind": pre})
     return cases
 
 
@@ -153,6 +160,13 @@ class C09(core.Check):
         for k, st in zip(targets, case["pre"]):
             name = P.function_name if k == "function" else None
             P.write(k, pj.prestate_text(k, st, version, name, method_of if k == "function" else None))
+        extra_pre = case.get("extra_same_kind")
+        if extra_pre:
+            P.extra = {truth: ["extra_" + pj.FILES[truth]]}
+            txt = pj.prestate_text(truth, extra_pre, version, P.function_name if truth == "function" else None, None)
+            if txt is not None:
+                with open(P.extra_paths(truth)[0], "w") as f:
+                    f.write(txt)
         truth_before = P.read(truth)
         exc, rep, out = P.sync(truth, kinds, case["via"])
         base = {"part": "product", "truth": pj.SHORT[truth], "kinds": "".join(pj.SHORT[k] for k in kinds), "method": case["method"],
@@ -166,6 +180,13 @@ class C09(core.Check):
             got = pj.extract(k, P.read(k), P.name_path(k))
             ok, bad = pj.agrees(got, version, k)
             sites.append(site(ok, dict(base, field="target_agrees", target=pj.SHORT[k], pre=st), fail="target_disagrees",
+                              mismatch=";".join(bad)[:120]))
+        if extra_pre:
+            p = P.extra_paths(truth)[0]
+            src = open(p).read() if os.path.exists(p) else None
+            got = pj.extract(truth, src, P.name_path(truth))
+            ok, bad = pj.agrees(got, version, truth)
+            sites.append(site(ok, dict(base, field="target_agrees", target=pj.SHORT[truth] + "2", pre=extra_pre), fail="target_disagrees",
                               mismatch=";".join(bad)[:120]))
         return sites, core.jkey(case), [core.jkey(case), [s["ok"] for s in sites]]
 
